@@ -502,7 +502,11 @@ func wrappingOrder(c *core.Ctx, r *core.Report) {
 					rateArg = a
 				}
 			}
-			wj, isWJ := an.Strip(rateArg).(*ssa.Call)
+			rv := an.Strip(rateArg)
+			if ex, isEx := rv.(*ssa.Extract); isEx && ex.Index == 0 {
+				rv = ex.Tuple // a maker that also reports an error (`WithShapedJitter(…) (RateFunction, error)`)
+			}
+			wj, isWJ := rv.(*ssa.Call)
 			okIn := isWJ && isJitterMaker(c, an.Callee(wj))
 			// nothing wraps the distributed rate again
 			okOut := true
